@@ -198,8 +198,17 @@ def as_setup(ctx):
         from pyvc.interp import PathEnd
         raise PathEnd("path length outside the enumerated range")
     keys = [fresh_str(ctx, f"key{i}") for i in range(n)]
-    d = SymDict.fresh(ctx, "d")
-    return NS(self=V.Obj(SETCLS, {}), keys=keys, value=fresh_value(ctx), d=d)
+    # `d` is the target store itself (top-level call from __init__), a section of it (recursive calls), or an unrelated dict
+    root = SymDict.fresh(ctx, "config")
+    if ctx.branch(ctx.fresh("d_is_the_store", "bool").t):
+        d, where = root, "d=store"
+    elif ctx.branch(ctx.fresh("d_is_a_section", "bool").t):
+        sec = fresh_str(ctx, "section")
+        ctx.assume(is_dict(root.tree(), sec))
+        d, where = SymDict(root.root, (sec.t,)), "d=section-of-store"
+    else:
+        d, where = SymDict.fresh(ctx, "d"), "d=other-dict"
+    return NS(self=V.Obj(SETCLS, dict(config=root, _record=[])), keys=keys, value=fresh_value(ctx), d=d, case=f"{n}-components,{where}")
 
 
 def as_snapshot(s):
@@ -379,7 +388,14 @@ def get_ensures(s):
     found, mid, kd, lf, tr, parts, cs = get_found(s)
     if parts is None or len(cs) != len(parts):
         return [("ghost:components-known", z3.BoolVal(False))]
-    out = [(f"level{i}:canonical-key-has-same-normalised-name", norm(c) == norm(p)) for i, (c, p) in enumerate(zip(cs, parts))]
+    # each component is looked up under its canonical name IN THE DICT REACHED SO FAR (canonical_name's statement, restated per level)
+    out = []
+    t_i, ok_i = s.old.tree, z3.BoolVal(True)
+    for i, (c, p) in enumerate(zip(cs, parts)):
+        for lab, f in zip(("same-normalised-name", "exact-spelling-kept", "given-or-existing", "other-spelling-found[one-spelling-keys]"), cn_post(c, p, t_i)):
+            out.append((f"level{i}:canonical-in-the-dict-reached-so-far:{lab}", implies(ok_i, f)))
+        ok_i = z3.And(ok_i, is_dict(t_i, c))
+        t_i = CF(t_i)[sterm(c)]
     r = s.result
     if s.default is NO_DEFAULT:
         out += [("returns-entry-at-canonical-path", AND(found, value_matches(r, kd, lf, tr)))]
@@ -1156,6 +1172,16 @@ def up_requires(s):
     return out
 
 
+def mark_external(m):
+    """Mark a mapping argument (and its sub-mappings) so that storing it by reference is recorded by the dict model."""
+    m.external = True
+    if isinstance(m, ItemsMap):
+        for _, v in m.items():
+            if isinstance(v, (ItemsMap, SymDict)):
+                mark_external(v)
+    return m
+
+
 def up_snapshot(s):
     # NB the engine stores the snapshot as `s.old`, which is also the name of update's first parameter: the parameter is kept as
     # s.old_handle (verify: passed through s.param_values; apply: stashed here before s.old is overwritten)
@@ -1163,7 +1189,10 @@ def up_snapshot(s):
     if not hasattr(s, "old_handle"):
         s.old_handle = s.old
     h = s.old_handle
-    return NS(tree=h.tree() if isinstance(h, SymDict) else None, n_cn=len(g.get("cn_calls", [])), n_up=len(g.get("update_calls", [])))
+    if s.mode == "verify":
+        mark_external(s.new)
+    return NS(tree=h.tree() if isinstance(h, SymDict) else None, n_cn=len(g.get("cn_calls", [])), n_up=len(g.get("update_calls", [])),
+              n_alias=len(g.get("aliased", [])))
 
 
 def up_ghost_verify(s):
@@ -1194,6 +1223,7 @@ def up_ensures(s):
         return [("ghost:canonical-key-per-item", z3.BoolVal(False))]
     t, t2 = s.old.tree, s.old_handle.tree()
     out = [("returns-the-updated-dict", z3.BoolVal(s.result is s.old_handle))] + ([("first-item-starts-from-the-old-state", gs[0]["before"] == t)] if gs else [])
+    out.append(("frame:no-sub-mapping-of-new-is-stored-by-reference(old-and-new-share-no-dict)", z3.BoolVal(len(s.ctx.ghost.get("aliased", [])) == s.old.n_alias)))
     out += update_rel(t, t2, s.new.items(), gs, s.priority, dtree(s.defaults))
     if s.priority == "new-defaults" and s.shape == "flat1" and isinstance(s.defaults, SymDict):
         # property level: the current default of the key may be stored under the other spelling (witness e from setup)
@@ -1273,6 +1303,8 @@ def mg_setup(ctx):
         k1 = fresh_nd_key(ctx, "k1")
         k2, k4 = fresh_nd_key(ctx, "k2"), fresh_nd_key(ctx, "k4")
         dicts = [ItemsMap([(k1, ItemsMap([(k2, Leaf(ctx.fresh("v2", "int")))]))]), ItemsMap([(k1, ItemsMap([(k4, Leaf(ctx.fresh("v4", "int")))]))])]
+    for d in dicts:
+        mark_external(d)
     return NS(varargs=tuple(dicts), dicts=tuple(dicts), shape=shape, case=shape)
 
 
@@ -1283,7 +1315,8 @@ def fresh_nd_key(ctx, name):
 
 
 def mg_snapshot(s):
-    return NS(n_up=len(s.ctx.ghost.get("update_calls", [])), writes=[d.root.writes for d in s.dicts if isinstance(d, SymDict)])
+    return NS(n_up=len(s.ctx.ghost.get("update_calls", [])), writes=[d.root.writes for d in s.dicts if isinstance(d, SymDict)],
+              n_alias=len(s.ctx.ghost.get("aliased", [])))
 
 
 def mg_ensures(s):
@@ -1291,7 +1324,8 @@ def mg_ensures(s):
     if not isinstance(r, SymDict):
         return [("returns-a-dict", z3.BoolVal(False))]
     out = [("returns-a-new-dict", z3.BoolVal(all(r is not d and (not isinstance(d, SymDict) or r.root is not d.root) for d in s.dicts))),
-           ("arguments-unchanged", z3.BoolVal([d.root.writes for d in s.dicts if isinstance(d, SymDict)] == s.old.writes))]
+           ("arguments-unchanged", z3.BoolVal([d.root.writes for d in s.dicts if isinstance(d, SymDict)] == s.old.writes)),
+           ("result-shares-no-dict-with-the-arguments", z3.BoolVal(len(s.ctx.ghost.get("aliased", [])) == s.old.n_alias))]
     t = r.tree()
     if all(isinstance(d, SymDict) for d in s.dicts):
         out.append(("result-is-update-folded-from-the-empty-dict", t == fold_defaults([d.tree() for d in s.dicts])))
@@ -1300,6 +1334,8 @@ def mg_ensures(s):
     if s.mode == "apply":
         return out
     gss = s.ctx.ghost.get("update_calls", [])[s.old.n_up:]
+    if len(gss) != len(s.dicts) or (not s.shape.startswith("opaque") and any(g is None for g in gss)):
+        return [(f"[{s.shape}]{a}", b) for a, b in out + [("ghost:one-update-per-argument", z3.BoolVal(False))]]
     if s.shape == "flat+flat":
         (k1, v1), (k3, v3) = s.dicts[0].items()[0], s.dicts[1].items()[0]
         c1, c3 = gss[0][0]["c"], gss[1][0]["c"]
@@ -1773,8 +1809,8 @@ def conc_device(prefix, via):
         elif ev(prefix + "_type") is not None:
             ix = None if ev(prefix + "_index_is_none", True) else ev(prefix + "_index", 0)
             dev = {"torch.device": ev(prefix + "_type") + ("" if ix is None else f":{ix}")}
-        elif ev("str_of_val") is not None:
-            return None
+        elif ev("str_of_val") is not None and "cpu" in ev("str_of_val"):
+            dev = {"list": [ev("str_of_val")]}  # an object whose text contains the model's string
         else:
             return None
         if isinstance(dev, str):
